@@ -2708,6 +2708,10 @@ func unpackOPTResource(msg []byte, off int, length uint16) (OPTResource, error) 
 			return OPTResource{}, &nestedError{"Data", errCalcLen}
 		}
 		off += int(l)
+		if off > oldOff+int(length) {
+			// The option must lie within the resource data.
+			return OPTResource{}, &nestedError{"Data", errCalcLen}
+		}
 		opts = append(opts, o)
 	}
 	return OPTResource{opts}, nil
